@@ -121,10 +121,18 @@ func downSources(c *CaseDesc) map[int]int {
 
 // genDisplaceCase: a chain in which every type has exactly one source and every provider is needed,
 // so that every plain injector is a candidate for displacement
+// genDisplaceCase: a chain in which every provider is needed.  Most types have exactly one source (so
+// that most plain injectors qualify for displacement); some types are provided again further down,
+// after their earlier value has been consumed, by providers that may or may not read them.
 func genDisplaceCase(rng *rand.Rand, n int, seed int64) *CaseDesc {
 	c := &CaseDesc{N: n, Seed: seed, Shape: "flat"}
-	free := rng.Perm(8) // type codes 0..7, each handed out once as somebody's output
+	free := rng.Perm(8) // type codes 0..7
+	var used []int      // types that have a source already
 	take := func() (int, bool) {
+		// now and then provide again a type whose current value has been consumed
+		if len(used) > 0 && rng.Intn(4) == 0 {
+			return used[rng.Intn(len(used))], true
+		}
 		if len(free) == 0 {
 			return 0, false
 		}
@@ -133,33 +141,47 @@ func genDisplaceCase(rng *rand.Rand, n int, seed int64) *CaseDesc {
 		return t, true
 	}
 	var avail []int
-	consumed := map[int]bool{}
-	for k := rng.Intn(3); k > 0; k-- {
-		if t, ok := take(); ok {
-			c.InvIn = append(c.InvIn, t)
+	pending := map[int]bool{} // produced and not yet consumed by anybody
+	produce := func(t int) bool {
+		if pending[t] { // its current value still waits for a consumer: providing it again would orphan that provider
+			return false
+		}
+		pending[t] = true
+		if !contains(used, t) {
+			used = append(used, t)
 			avail = append(avail, t)
+		}
+		return true
+	}
+	for k := rng.Intn(3); k > 0; k-- {
+		if t, ok := take(); ok && !contains(c.InvIn, t) && produce(t) {
+			c.InvIn = append(c.InvIn, t)
+			pending[t] = false // invoke arguments need no consumer
 		}
 	}
 	pickIn := func(max int) []int {
 		var ins []int
-		for k := rng.Intn(max + 1); k > 0 && len(avail) > 0; k-- {
+		// prefer what still waits for a consumer
+		for _, t := range avail {
+			if pending[t] && len(ins) < max && rng.Intn(2) == 0 {
+				ins = append(ins, t)
+			}
+		}
+		for k := rng.Intn(max + 1); k > 0 && len(avail) > 0 && len(ins) < max; k-- {
 			t := avail[rng.Intn(len(avail))]
 			if !contains(ins, t) {
 				ins = append(ins, t)
-				consumed[t] = true
 			}
+		}
+		for _, t := range ins {
+			pending[t] = false
 		}
 		return ins
 	}
-	L := 4 + rng.Intn(5)
+	L := 4 + rng.Intn(6)
 	retT := -1
 	if rng.Intn(2) == 0 {
 		retT = cError
-		if rng.Intn(2) == 0 {
-			if t, ok := take(); ok {
-				retT = t
-			}
-		}
 	}
 	for i := 0; i < L-1; i++ {
 		p := &ProvDesc{Idx: i}
@@ -167,18 +189,16 @@ func genDisplaceCase(rng *rand.Rand, n int, seed int64) *CaseDesc {
 		case x == 0:
 			p.Kind = "lit"
 			t, ok := take()
-			if !ok {
+			if !ok || contains(c.InvIn, t) || !produce(t) {
 				continue
 			}
 			p.Out = []int{t}
-			avail = append(avail, t)
 		case x <= 2:
 			p.Kind = "wrap"
 			p.In = pickIn(2)
 			if rng.Intn(2) == 0 {
-				if t, ok := take(); ok {
+				if t, ok := take(); ok && !contains(p.In, t) && produce(t) {
 					p.IIn = []int{t}
-					avail = append(avail, t)
 				}
 			}
 			p.Calls = 1 + rng.Intn(2)
@@ -190,17 +210,16 @@ func genDisplaceCase(rng *rand.Rand, n int, seed int64) *CaseDesc {
 			p.Kind = "inj"
 			p.In = pickIn(2)
 			for k := rng.Intn(3); k > 0; k-- {
-				if t, ok := take(); ok {
+				if t, ok := take(); ok && !contains(p.Out, t) && produce(t) {
 					p.Out = append(p.Out, t)
 				}
 			}
-			avail = append(avail, p.Out...)
 		}
 		c.Provs = append(c.Provs, p)
 	}
 	fin := &ProvDesc{Idx: L - 1, Kind: "inj"}
-	for _, t := range avail { // the final function consumes whatever nobody else does: everything is needed
-		if !consumed[t] && !contains(c.InvIn, t) {
+	for _, t := range avail { // the final function consumes whatever still waits: everything is needed
+		if pending[t] {
 			fin.In = append(fin.In, t)
 		}
 	}
